@@ -6,7 +6,7 @@ REAL_COMMON = ["all TASMANIAN code compiled from /repo's working tree", "libstdc
 CHECKS = {
     "C15": {
         "id": "C15", "engine": "envsim", "flavour": "asan", "binary": "build/asan/c15", "level": "exploration",
-        "tiers": {"quick": {"runs": 120000, "batch": 1500, "wall_cap": 300}, "thorough": {"runs": 4000000, "batch": 5000, "wall_cap": 1500}},
+        "tiers": {"quick": {"runs": 400000, "batch": 2500, "wall_cap": 300}, "thorough": {"runs": 12000000, "batch": 5000, "wall_cap": 1500}},
         "rule": "one case = one seeded environment (chains, dims, form, pdf kind, domain kind, update rule, differential weight, "
                 "burn/collect lengths, split point, endpoint-draw injections attached to draw kinds); executed as a single run and as "
                 "two consecutive runs; distinct = distinct (configuration shape, injection list); non-trivial = at least one iteration",
@@ -20,7 +20,7 @@ CHECKS = {
 
 CHECKS["C20"] = {
     "id": "C20", "engine": "envsim", "flavour": "asan", "binary": "build/asan/c20", "level": "exploration",
-    "tiers": {"quick": {"runs": 150000, "batch": 1500, "wall_cap": 300}, "thorough": {"runs": 5000000, "batch": 5000, "wall_cap": 1500}},
+    "tiers": {"quick": {"runs": 400000, "batch": 2500, "wall_cap": 300}, "thorough": {"runs": 12000000, "batch": 5000, "wall_cap": 1500}},
     "rule": "one case = one seeded environment (particles, dims, objective kind, domain kind, coefficients, initialisation, endpoint-draw injections) "
             "and a plan of 1-4 ParticleSwarm calls separated by state edits (none, clearCache, clearBestParticles, both, manual positions/bests + clearCache, "
             "manual velocities); calls separated by 'none' are also executed merged (n then m vs n+m); distinct = distinct (configuration shape, call/edit plan, injections)",
@@ -34,7 +34,7 @@ CHECKS["C20"] = {
 
 CHECKS["C06"] = {
     "id": "C06", "engine": "persist", "flavour": "asan", "binary": "build/asan/c06", "level": "exploration",
-    "tiers": {"quick": {"runs": 24000, "batch": 250, "wall_cap": 420}, "thorough": {"runs": 400000, "batch": 500, "wall_cap": 2400}},
+    "tiers": {"quick": {"runs": 100000, "batch": 250, "wall_cap": 300}, "thorough": {"runs": 3000000, "batch": 500, "wall_cap": 2400}},
     "rule": "one case = a seeded grid configuration (family, rule, dims, outputs, depth, type, weights, limits, transforms) + a seeded history of 0-8 operations "
             "(load, overwriting reload, surplus/anisotropic refinement, update, merge, clear, setHierarchicalCoefficients, begin/candidates+loadConstructedPoints/finish, "
             "copy, transforms, removePoints) + format x entry point + medium faults + 1-4 continuation operations; distinct = distinct (grid state shape incl. point set, format, entry)",
@@ -117,7 +117,7 @@ SIM_COMPONENTS_SIMULATED = ["thread scheduler: every std::thread / std::mutex / 
 
 CHECKS["C18"] = {
     "id": "C18", "engine": "sched+sync+race", "flavour": "thr", "binary": "build/thr/c18", "level": "exploration",
-    "tiers": {"quick": {"runs": 12000, "batch": 100, "wall_cap": 300}, "thorough": {"runs": 400000, "batch": 200, "wall_cap": 2400}},
+    "tiers": {"quick": {"runs": 100000, "batch": 250, "wall_cap": 300}, "thorough": {"runs": 3000000, "batch": 500, "wall_cap": 2400}},
     "rule": "one case = a seeded workload (parallel constructSurrogate: family, rule, dims, outputs, jobs 1-6, batch 1-3, budget 1-35 incl. below the job count, tolerance/criteria or anisotropic type/weights, "
             "level limits, initial guess, optionally a pre-loaded grid, public overload or constructCommon; or threaded loadNeededValues: 0-6 threads, overwrite or not, array or vector overload, fresh/loaded/refined grid) "
             "+ a latency model (zero, uniform, heavy-tailed, one slow worker, equal) + one seeded schedule (strategy, pre-emption rate, spurious wake-ups, notify target); "
